@@ -5,6 +5,7 @@ package props
 import (
 	"bytes"
 	"fmt"
+	"sort"
 
 	"github.com/intuitivelabs/sipsp"
 	"pgregory.net/rapid"
@@ -19,6 +20,7 @@ type CaseFrame struct {
 	CLPos  int     `json:"cl_pos"`  // position of the Content-Length header among the headers
 	Avail  B       `json:"avail"`   // bytes that follow the blank line in the buffer
 	Flags  uint    `json:"flags"`   // 0..7
+	Sched  []int   `json:"sched"`   // chunk schedule: the verdict of the last call (whole buffer) is what the table describes
 }
 
 func (c CaseFrame) render() ([]byte, int) {
@@ -56,7 +58,25 @@ func evalFrame(c CaseFrame) Result {
 	avail := len(c.Avail)
 	var msg sipsp.PSIPMsg
 	msg.Init(nil, make([]sipsp.Hdr, 70), nil)
-	o, e := sipsp.ParseSIPMsg(buf, 0, &msg, flags)
+	o := 0
+	var e sipsp.ErrorHdr
+	sched := normSchedule(c.Sched, len(buf))
+	for j, cp := range sched {
+		f := flags
+		if j < len(sched)-1 {
+			f &^= sipsp.SIPMsgNoMoreDataF // more data follows: the end-of-input flag belongs to the last call only
+		}
+		o, e = sipsp.ParseSIPMsg(buf[:cp:cp], o, &msg, f)
+		if e != sipsp.ErrHdrMoreBytes {
+			if j < len(sched)-1 {
+				// definitive before the whole buffer was seen: parse the whole buffer one-shot instead
+				// (C03 covers "definitive results do not change"); the table is about the complete buffer
+				msg.Init(nil, make([]sipsp.Hdr, 70), nil)
+				o, e = sipsp.ParseSIPMsg(buf, 0, &msg, flags)
+			}
+			break
+		}
+	}
 	rel := "absent"
 	switch {
 	case c.CL < 0:
@@ -167,6 +187,13 @@ func genFrame(t *rapid.T) CaseFrame {
 	}
 	c.CLName = recase(t, pick(t, "clname", "Content-Length", "l"))
 	c.CLPos = rapid.IntRange(0, len(c.Head.Hdrs)).Draw(t, "clpos")
+	if rapid.IntRange(0, 2).Draw(t, "chunked") == 0 {
+		k := rapid.IntRange(1, 5).Draw(t, "ncuts")
+		for i := 0; i < k; i++ {
+			c.Sched = append(c.Sched, rapid.IntRange(1, 600).Draw(t, "cut"))
+		}
+		sort.Ints(c.Sched)
+	}
 	return c
 }
 
